@@ -94,6 +94,14 @@ class Actor(BackgroundService, abc.ABC):
                 _logger.info("Actor %s: Cancelled.", self)
                 raise
             except Exception:  # pylint: disable=broad-except
+                if (task := asyncio.current_task()) is not None and task.cancelling():
+                    # The actor is being stopped and `_run()` failed while handling
+                    # the cancellation: restarting it would undo the stop (and
+                    # `stop()` would wait forever), so just let the error surface.
+                    _logger.exception(
+                        "Actor %s: Raised an exception while being cancelled.", self
+                    )
+                    raise
                 _logger.exception("Actor %s: Raised an unhandled exception.", self)
                 limit_str = "∞" if self._restart_limit is None else self._restart_limit
                 limit_str = f"({n_restarts}/{limit_str})"
